@@ -440,8 +440,10 @@ Inductive callkind :=
 | CkConnRefused (code : N)
 | CkSubBadAck
 | CkWillBadQoS
-| CkServe (n : N).                       (* Err() after the reader ended: 0 EOF, 1 unknown type, 2 five length bytes,
+| CkServe (n : N)                        (* Err() after the reader ended: 0 EOF, 1 unknown type, 2 five length bytes,
                                             3 U+0000 in topic, 4 PUBACK with flags *)
+| CkKeepAlive (n : N).                   (* KeepAlive (keepalive.go:34-61) ends: 0 the per-ping timeout expires,
+                                            1 the parent context is done (cause), 2 the ping's Write fails (cause) *)
 
 (* identities allocated by a call start at [id]; at most 4 are used *)
 Definition call_error (id : nat) (ck : callkind) (cause : err) : err :=
@@ -475,6 +477,10 @@ Definition call_error (id : nat) (ck : callkind) (cause : err) : err :=
       else if n =? 2 then wrap_error id (ESent SInvalidPacketLength)
       else if n =? 3 then wrap_error id (ESent SInvalidRune)
       else wrap_error id (ESent SInvalidPacket)
+  | CkKeepAlive n =>
+      if n =? 0 then wrap_error id (ESent SPingTimeout)                       (* keepalive.go:53 *)
+      else if n =? 1 then wrap_error id cause                                 (* keepalive.go:48 *)
+      else ping_impl id conn_client (script_of FWrite1 cause)                 (* keepalive.go:56: return err *)
   end.
 
 (* ---------- descriptions of how a value was built (what the harness does with the real
@@ -550,6 +556,16 @@ Fixpoint walkable (e : err) : bool :=
   match e with
   | ESent _ => true
   | ELib _ e' | EFmt _ e' | EConn _ _ e' | EReqTimeout _ e' | EWithRetry _ _ e' _ | EPtrErrField _ e' => walkable e'
+  | _ => false
+  end.
+
+(* %w / ConnectionError / RequestTimeoutError wrappers down to a sentinel or to the first library
+   wrapper, below which foreign Err-field wrappers are allowed as well *)
+Fixpoint ext_chain (e : err) : bool :=
+  match e with
+  | ESent _ => true
+  | ELib _ e' | EWithRetry _ _ e' _ => walkable e'
+  | EFmt _ e' | EConn _ _ e' | EReqTimeout _ e' => ext_chain e'
   | _ => false
   end.
 
@@ -784,6 +800,7 @@ Definition call_ok (ck : callkind) : bool :=
   | CkRetryTimeout k => match k with KPub0 | KConnect => false | _ => true end
   | CkNotConnected k => match k with KConnect => false | _ => true end
   | CkServe n => n <=? 4
+  | CkKeepAlive n => n <=? 2
   | _ => true
   end.
 
@@ -792,6 +809,7 @@ Definition uses_cause (ck : callkind) : bool :=
   | CkReq _ f => match f with FClosed1 | FClosed2 => false | _ => true end
   | CkConnectOpt | CkRetryConnectOpt => true
   | CkRetryPing _ f => match f with FClosed1 | FClosed2 => false | _ => true end
+  | CkKeepAlive n => negb (n =? 0)
   | _ => false
   end.
 
@@ -808,6 +826,7 @@ Definition call_sentinel (ck : callkind) : sentinel :=
   | CkWillBadQoS => SInvalidPacket
   | CkServe n => if n =? 0 then SEOF else if n =? 1 then SInvalidPacket else if n =? 2 then SInvalidPacketLength
                  else if n =? 3 then SInvalidRune else SInvalidPacket
+  | CkKeepAlive _ => SPingTimeout
   | CkConnectOpt | CkRetryConnectOpt => SClosedTransport (* unused: these use the cause *)
   end.
 
@@ -850,6 +869,7 @@ Definition ctx_call (ck : callkind) : bool :=
   match ck with
   | CkReq k f => call_ok ck && match f with FCtx1 | FCtx2 => true | _ => false end
   | CkRetryPing _ f => match f with FCtx1 => true | _ => false end
+  | CkKeepAlive n => n =? 1
   | _ => false
   end.
 
